@@ -439,7 +439,8 @@ class QuotientFilter:
             idx = next_idx
             next_idx = (idx + 1) & self.__mod_size
 
-        while not self._is_cluster_start(next_idx) and not self._is_empty_element(next_idx):
+        # (in a table without an empty slot the cluster ends where it starts, and the moves above may have taken the start marker)
+        while next_idx != min_idx and not self._is_cluster_start(next_idx) and not self._is_empty_element(next_idx):
             self._filter[idx] = self._filter[next_idx]
             self._is_continuation[idx] = self._is_continuation[next_idx]
             self._is_shifted[idx] = self._is_shifted[next_idx]
@@ -457,9 +458,10 @@ class QuotientFilter:
         self._elements_added -= 1
 
         # now figure out if things are in the correct place....
+        # (a cluster that filled the whole table is walked once around)
         cur_quot = -1
         queue: List[int] = []
-        while min_idx != next_idx:
+        for _ in range(((next_idx - min_idx) & self.__mod_size) or self._size):
             if self._is_occupied[min_idx] == 1:
                 queue.append(min_idx)
             if self._is_run_start(min_idx) == 1:
